@@ -11,3 +11,7 @@
 ; only instances of the defining equation psum.def are asserted (unfold).
 (declare-fun psum ((Array Int Int) Int Int) Int)
 (define-fun psum.def ((a (Array Int Int)) (o Int) (k Int)) Bool (= (psum a o k) (ite (<= k 0) 0 (+ (psum a o (- k 1)) (select a (+ o (- k 1)))))))
+; roll(p, f, m): where the next record starts when the cursor is at offset p of file f and the
+; file-size limit is m - the rule shared by the location prediction (Put) and the writer (flushBlock)
+(define-fun rollp ((p Int) (f Int) (m Int)) Int (ite (>= p m) 0 p))
+(define-fun rollf ((p Int) (f Int) (m Int)) Int (ite (>= p m) (mod (+ f 1) 4294967296) f))
